@@ -52,6 +52,7 @@ func (server *SugarDB) SwapDBs(database1, database2 int) {
 	}
 	server.storeLock.Unlock()
 
+	verifPoint("ks.swapDBs.conns")
 	// Swap the connections for each database.
 	server.connInfo.mut.Lock()
 	defer server.connInfo.mut.Unlock()
